@@ -219,7 +219,7 @@ def r3_post(ctx, prog):
     n_par = Aff.sym(f.params[0]['n'])
     k = 0
     for r, env, p in exit_envs(f, inn, before):
-        if q.return_const(f, r) != 1:
+        if r is None or q.return_const(f, r) != 1:
             continue
         k += 1
         rr, ww, ss = env.get(('f', 'read_index_')), env.get(('f', 'write_index_')), env.get(('f', 'buffer_size_'))
